@@ -265,7 +265,7 @@ SafeIsVersion.setup = _siv_setup
 
 # the second version test of the package: presentation requests for unknown nodes (>= 2.0) must depend
 # on the *same* floor as the tables, otherwise "2.0.0" gets the 2.0 tables but not the 2.0 behaviour
-@contract("mysensors:Gateway.is_sensor", props=["C18"])
+@contract("mysensors:Gateway.is_sensor", props=["C05", "C18"])
 class IsSensorVersion:
     configs = [{"patch": p, "floor": f} for p in (False, True) for f in range(5)]
 
